@@ -95,6 +95,25 @@ def rule_subtree_edit(ctx, F):
             ("…and, if the child depends on columns and the column shifted, only past the edited line",
              [("ts_subtree_depends_on_column(*child)", False), ("edit.new_end.extent.column != edit.old_end.extent.column", False), ("child_left.extent.row > edit.old_end.extent.row", True)]),
         ], accept_desc="leaving the child loop early", accept_edge=is_break)
+    # sibling agreement: start / old_end / new_end of the child's edit are produced by the same mapping
+    ce = [n for pt, e in fn.points() for n in own_walk(e) if n.get("k") == "init" and n.get("t") == "Edit" and any("child_left" in show(f["e"]) for f in n.get("fields", []))]
+    if len(ce) == 1:
+        shapes = {}
+        for f in ce[0]["fields"]:
+            v = strip(f["e"])
+            shapes[f["f"]] = (callee_name(v) if v.get("k") == "call" else show(v)[:30], [show(a) for a in v.get("a", [])[1:]] if v.get("k") == "call" else None,
+                              show(v["a"][0]) if v.get("k") == "call" and v.get("a") else None)
+        fns_used = {x[0] for x in shapes.values()}
+        second = {tuple(x[1] or []) for x in shapes.values()}
+        firsts_ok = all(x[2] == "edit.%s" % k for k, x in shapes.items())
+        if set(shapes) == {"start", "old_end", "new_end"} and len(fns_used) == 1 and len(second) == 1 and firsts_ok:
+            ctx.ok("P2", "ts_subtree_edit:child-edit-one-mapping", "start, old_end and new_end of a child's edit are all `%s(edit.<field>, %s)`" % (list(fns_used)[0], list(second)[0][0] if list(second)[0] else ""),
+                   sample={"function": fn.name, "mapping": list(fns_used)[0]})
+        else:
+            ctx.bad("P2", "ts_subtree_edit:child-edit-one-mapping", "the three coordinates of a child's edit are no longer produced by one and the same mapping of (edit.<field>, child_left): %s — positions after the edit then shift inconsistently" % shapes,
+                    {"function": fn.name})
+    else:
+        ctx.bad("P2", "ts_subtree_edit:child-edit-anchor", "could not find the single `Edit child_edit = {…}` initialiser (found %d)" % len(ce))
     # end_byte used for the early `continue` counts the look-ahead
     eb = fn.ids_named("end_byte")
     d = fn.single_def(eb[0]) if eb else None
